@@ -13,7 +13,13 @@ mod verif_search {
     #[test]
     fn verif_search_c18_cells() {
         let mut n = 0u64;
-        for dc in 1..=3u8 { for h in 1..=5u8 { for w in 1..=5u8 {
+        // every small card, then STRUCTURED shapes: digit counts around powers of two / the u8 maximum, the largest cards (255 cells,
+        // offsets past 255 and past 65535 / 2)
+        let mut shapes: Vec<(u8, u8, u8)> = Vec::new();
+        for dc in 1..=3u8 { for h in 1..=5u8 { for w in 1..=5u8 { shapes.push((dc, h, w)); } } }
+        for dc in [8u8, 9, 16, 17, 128, 255] { for (h, w) in [(1u8, 1u8), (2, 3), (3, 2)] { shapes.push((dc, h, w)); } }
+        for dc in [1u8, 2, 129, 255] { for (h, w) in [(1u8, 255u8), (255, 1), (15, 17), (17, 15), (16, 15), (5, 51)] { shapes.push((dc, h, w)); } }
+        for (dc, h, w) in shapes.iter().copied() {
             let c = card(dc, h, w);
             let printed: Vec<String> = c.to_printer().collect();
             for y in 0..h { for x in 0..w {
@@ -26,7 +32,7 @@ mod verif_search {
                     Err(_) => { println!("REPLAY-FAIL c18_cells digit_count={} height={} width={} x={} y={} printed={} returned=<panic>", dc, h, w, x, y, want); return; }
                 }
             } }
-        } } }
+        }
         // accessors carry what the card was built from; from_data accepts exactly data of the card's size
         for dc in 1..=3u8 { for h in 1..=5u8 { for w in 1..=5u8 {
             n += 1;
